@@ -35,7 +35,7 @@ META = {
                     'by a one-letter marker token; no catcode op inside an argument group; \\gdef writes the bottom frame and '
                     'may be shadowed by a live local definition (lookup yields the innermost live definition)',
                     'no fault space exists for this property (sequential refinement only)'],
-    'probe_names': ['dfs_exhaustive', 'catcode_char_directly_after_group_end', 'locals_sweep', 'unknown_environment_in_math', 'package_loaded_inside_group', 'user_environment', 'fresh_name_global_in_nesting', 'catalogue_scope', 'catalogue_dimen_spelling', 'catalogue_raise', 'declaration_frame', 'change_after_declaration_restored', 'char_let_shadowed', 'local_def_restored', 'global_def_survives', 'let_restored', 'catcode_restored', 'if_survives', 'counter_survives',
+    'probe_names': ['dfs_exhaustive', 'declaration_inside_its_environment_form', 'catcode_char_directly_after_group_end', 'locals_sweep', 'unknown_environment_in_math', 'package_loaded_inside_group', 'user_environment', 'fresh_name_global_in_nesting', 'catalogue_scope', 'catalogue_dimen_spelling', 'catalogue_raise', 'declaration_frame', 'change_after_declaration_restored', 'char_let_shadowed', 'local_def_restored', 'global_def_survives', 'let_restored', 'catcode_restored', 'if_survives', 'counter_survives',
                     'nested_depth_ge3', 'env_inside_group', 'group_inside_env', 'math_group', 'cell_scope', 'argument_group',
                     'gdef_shadowed', 'catcode_cow_two_frames'],
     'shrink_budget': 400,
@@ -746,6 +746,10 @@ def enumerate_cases(base_seed, tier):
             body = [{'op': 'DEF_GLOBAL', 'name': 'na', 'id': 7}] if what == 'def' else [{'op': 'LET', 'dst': 'na', 'src': 'nb', 'global': True}]
             out.append({'property': PID, 'seed': core.h64('C04-global', j, what), 'swarm': {'transports': ['tex'], 'global_prefix': True},
                         'ops': [{'op': 'OPEN', 'kind': kind}] + body + [{'op': 'PROBE', 'what': 'na'}, {'op': 'CLOSE'}, {'op': 'PROBE', 'what': 'na'}]})
+    for d in DECL_ENV_NAMES:
+        for same in (True, False):
+            out.append({'property': PID, 'seed': core.h64('C04-declenv', d, same), 'swarm': {'transports': ['tex'], 'declenv': True},
+                        'ops': [{'op': 'DECLENV', 'name': d, 'same': same}]})
     for order in LOCALS_ORDERS:
         out.append({'property': PID, 'seed': core.h64('C04-locals', order), 'swarm': {'transports': ['api'], 'locals': True},
                     'ops': [{'op': 'LOCALS', 'order': order}]})
@@ -780,6 +784,8 @@ def execute(record):
         return execute_catalogue(record, res)
     if record['swarm'].get('locals'):
         return execute_locals(record, res)
+    if record['swarm'].get('declenv'):
+        return execute_declenv(record, res)
     ops = balance([o for o in record['ops'] if 'op' in o])
     info, viol, log = {}, [], []
     states = []
@@ -943,6 +949,40 @@ def execute_locals(record, res):
         res['sub_distinct'] = res.get('sub_distinct', 0) + out['ok']
     res['violations'] = viol
     res['probes'] = {'locals_sweep': 1}
+    res['nontrivial'] = True
+    res['steps'] = len(log)
+    res['digest'] = core.hexdigest(record['ops'])
+    res['log_digest'] = core.hexdigest(log)
+    return res
+
+
+# --------------------------------------------------------------------------
+# a declaration used inside the ENVIRONMENT form of itself (\begin{small} ... \small ... \end{small}): \end must close
+# the environment's frame, not merely the declaration's (OPEN finding `decl-in-own-env`: dedicated cases only)
+
+DECL_ENV_NAMES = ['small', 'itshape', 'bfseries', 'large']
+
+
+def execute_declenv(record, res):
+    from plasTeX.TeX import TeX
+    viol, log = [], []
+    for op in record['ops']:
+        if op.get('op') != 'DECLENV':
+            continue
+        d = op['name']
+        inner = ('\\%s ' % d) if op.get('same', True) else '\\relax '
+        source = PREAMBLE + 'A \\begin{%s}\\def\\na{IN}%sq\\end{%s}[x\\na]END\\end{document}' % (d, inner, d)
+        tex = TeX()
+        tex.input(source)
+        doc = tex.parse()
+        got = ''.join(str(doc.textContent).split())
+        log.append([d, op.get('same', True), got[-20:]])
+        if not got.endswith('[xna0]END'):
+            viol.append({'sig': 'C04|tex|decl-in-own-env' if op.get('same', True) else 'C04|tex|text|macro',
+                         'detail': {'source': source[len(PREAMBLE):], 'got_tail': got[-30:], 'expected_tail': '[xna0]END'}})
+            break
+    res['violations'] = viol
+    res['probes'] = {'declaration_inside_its_environment_form': 1}
     res['nontrivial'] = True
     res['steps'] = len(log)
     res['digest'] = core.hexdigest(record['ops'])
